@@ -111,13 +111,12 @@ pub open spec fn cstr_len_in(root: Seq<u8>, pos: int, end: int) -> nat
 pub open spec fn cstr_len(v: RView, p: int) -> nat { cstr_len_in(v.root, v.start + p, v.end() as int) }
 
 pub proof fn lemma_cstr_len(root: Seq<u8>, pos: int, end: int, n: nat)
-    requires pos + n < end, root[pos + n] == 0, forall|j: int| 0 <= j < n ==> root[pos + j] != 0
+    requires pos + n < end, root[pos + n] == 0, forall|k: int| pos <= k < pos + n ==> #[trigger] root[k] != 0
     ensures cstr_len_in(root, pos, end) == n
     decreases n
 {
     if n > 0 {
-        assert(root[pos + 0] != 0);
-        assert forall|j: int| 0 <= j < n - 1 implies root[pos + 1 + j] != 0 by { assert(root[pos + (j + 1)] != 0); }
+        assert(root[pos] != 0);
         lemma_cstr_len(root, pos + 1, end, (n - 1) as nat);
     }
 }
